@@ -26,6 +26,15 @@ CHECKS = {
               "calls) are regenerated from rlbox.hpp on every run and are proof obligations; the model is tied to the code by ~300k differential ops "
               "(10 pointee types x 10 forms x 15 operand types x 3 wrappers x boundary values) with an exact-integer oracle."),
         note=NOTE + "Known finding F8 (offset wrap) is listed in known_findings.json; F1 (p-- incremented) was repaired by a fix: commit."),
+    "C10": dict(
+        engine="range", design_ref="DESIGN.md §6 C10",
+        technique="Lean 4 theorems on the range-check arithmetic (division/mod lemmas + omega) + differential execution with whole-region byte diffs + interval oracle",
+        text=("Proof: C10_sound (a checked non-empty range never wraps and lies in one aligned block, for every start and every size_t extent), "
+              "C10_sound_region/_outside (wholly inside / wholly outside a region), C10_complete(_region) (every non-empty in-block request passes), "
+              "C10_ops_memset/memcpy, C10_too_large, C10_null_start, C10_counted and C10_safe_pointer (element-counted variants, no side condition after the repairs). "
+              "Tied to the code by ~6k-10k boundary ops over all nine operations with byte diffs of both regions and the application arena. "
+              "Four genuine defects were found by this check and repaired (fix: commits bd117b1, 2d57aba, 8abe039, 66ca6e3)."),
+        note=NOTE + "For application-side ranges 'outside' is judged per 2^16-aligned block (what a mask-based backend can tell)."),
 }
 
 TODO_REASON = "check not built yet in this round (design in DESIGN.md §6); will be claimed when its theorems and correspondence check exist"
